@@ -961,7 +961,13 @@ class Unit:
                     self.log.add('R13(static table -> const)', '%s::%s' % (e[1], e[2]))
                 if it.kind == 'struct':
                     # R1: tuple-struct fields pub so specs may mention self.0
-                    text = re.sub(r'\((\s*)(?!pub)', r'(\1pub ', text, count=1) if re.match(r'(pub\s+)?struct\s+\w+(<[^>]*>)?\s*\(', text) else text
+                    if re.match(r'(pub\s+)?struct\s+\w+(<[^>]*>)?\s*\(', text):
+                        text = re.sub(r'\((\s*)(?!pub)', r'(\1pub ', text, count=1)
+                    else:
+                        # named fields: make every field pub so that specs may mention it
+                        text = re.sub(r'(?m)^(\s+)(?!pub\b)(\w+\s*:)', r'\1pub \2', text)
+                    # derive lists are dropped (R1): Verus needs no Debug/PartialEq here
+                    text = re.sub(r'#\[derive\([^)]*\)\]\s*', '', text)
                 self.emit(text, e[1], rustlex.line_of(src, it.start))
             elif kind in ('body', 'standin'):
                 rel, path = e[1], e[2]
